@@ -33,6 +33,7 @@ type Config struct {
 	Concretize int // max range for symbolic value concretisation
 	AcceptPanic bool
 	TierInt     int
+	Wall        time.Duration
 }
 
 type PathResult struct {
@@ -240,27 +241,49 @@ func (w *Worker) decideN(conds []*Term, why string) int {
 		st.addPC(conds[d])
 		return d
 	}
-	var feas []int
+	type alt struct {
+		i     int
+		model map[string]*big.Int
+		keep  bool // satisfied by the current model
+	}
+	var feas []alt
 	unknown := false
+	// which alternative does the current model take?
+	taken := -1
+	if st.model != nil {
+		for i, c := range conds {
+			if c.IsTrue() || (!c.IsFalse() && st.evalTrue(c)) {
+				taken = i
+				break
+			}
+		}
+	}
 	for i, c := range conds {
 		if c.IsFalse() {
 			continue
 		}
+		if i == taken {
+			feas = append(feas, alt{i: i, keep: true})
+			continue
+		}
 		if c.IsTrue() {
-			feas = append(feas, i)
+			feas = append(feas, alt{i: i, keep: true})
 			continue
 		}
 		// last remaining alternative with none feasible so far must be feasible
 		if i == len(conds)-1 && len(feas) == 0 && !unknown {
-			feas = append(feas, i)
+			feas = append(feas, alt{i: i})
 			continue
 		}
-		r := w.sol.Check(st.pc, c)
+		if st.refuted(c) {
+			continue
+		}
+		r, m := w.sol.CheckModel(st.pc, c, w.allVars())
 		if r == "unknown" {
 			unknown = true
-			feas = append(feas, i)
+			feas = append(feas, alt{i: i})
 		} else if r == "sat" {
-			feas = append(feas, i)
+			feas = append(feas, alt{i: i, model: m})
 		}
 	}
 	if len(feas) == 0 {
@@ -269,19 +292,76 @@ func (w *Worker) decideN(conds []*Term, why string) int {
 	if unknown {
 		st.approx = true
 	}
-	for _, alt := range feas[1:] {
+	// continue with the alternative the model takes (if any), fork the others
+	first := 0
+	for k, a := range feas {
+		if a.keep && a.i == taken {
+			first = k
+			break
+		}
+	}
+	for k, a := range feas {
+		if k == first {
+			continue
+		}
 		n := st.clone()
 		n.pc = n.pc[:st.pcMark]
-		n.forced = append(append([]int(nil), st.decs...), alt)
+		n.forced = append(append([]int(nil), st.decs...), a.i)
 		n.decIdx = 0
+		if a.model != nil {
+			n.model = a.model
+		} else if !a.keep {
+			n.model = nil
+		}
 		w.hr.push(n)
 	}
-	d := feas[0]
-	st.decs = append(st.decs, d)
+	d := feas[first]
+	if !d.keep {
+		st.model = d.model
+	}
+	st.decs = append(st.decs, d.i)
 	st.decIdx++
 	st.forced = append(st.forced[:0:0], st.decs...)
-	st.addPC(conds[d])
-	return d
+	st.addPC(conds[d.i])
+	return d.i
+}
+
+// allVars lists every solver variable created on this path (inputs and auxiliaries).
+func (w *Worker) allVars() []*Term {
+	vs := w.inputVars()
+	vs = append(vs, w.st.auxVars...)
+	return vs
+}
+
+// refuted reports whether c is syntactically contradicted by the path condition.
+func (st *State) refuted(c *Term) bool {
+	if st.lits[Not(c).ID] {
+		return true
+	}
+	if c.Op == OAnd {
+		for _, a := range c.Args {
+			if st.lits[Not(a).ID] {
+				return true
+			}
+		}
+	}
+	if c.Op == ONot && c.Args[0].Op == OOr {
+		for _, a := range c.Args[0].Args {
+			if st.lits[a.ID] {
+				return true
+			}
+		}
+	}
+	return false
+}
+
+// evalTrue evaluates c under the path's cached model.
+func (st *State) evalTrue(c *Term) bool {
+	if st.model == nil {
+		return false
+	}
+	r := evalTerm(c, st.model, map[int64]*Term{})
+	return r.IsTrue()
 }
 
 func (w *Worker) decide(c *Term, why string) bool {
